@@ -252,8 +252,11 @@ def check_footer_panel(base_year=1990):
 def _check_footer_panel(base_year=1990):
     for footer, so, do, rs, re_ in FOOTER_PANEL:
         u0 = cal.sec(base_year, 6, 1, 0, 0, 0)
-        z = {"N": 2, "T": 2, "off": [so, do], "dst": [0, 1], "abbr": [0, 4], "default": 0, "unix": [-(1 << 40), u0], "type": [0, 0],
-             "chars": _panel_chars(footer)}
+        chars = _panel_chars(footer); dsti = chars.index(b"\0") + 1          # index of the DST name in the abbreviation table
+        # types: standard, a decoy (the DST offset and DST name but flagged standard, as a zone that once used that offset as its
+        # standard time has), daylight
+        z = {"N": 2, "T": 3, "off": [so, do, do], "dst": [0, 0, 1], "abbr": [0, dsti, dsti], "default": 0, "unix": [-(1 << 40), u0], "type": [0, 0],
+             "chars": chars}
         img = tzif(z, footer)
         h = lib().tzr_load(img, ctypes.c_size_t(len(img)))
         if not h: return "TimeZoneInfo::Load rejects a zone with footer %r" % footer
@@ -273,10 +276,11 @@ def _check_footer_panel(base_year=1990):
                             for inst, st_ in ((ss, True), (ee, False)):
                                 if inst <= t and (best is None or inst > best[0]): best = (inst, st_)
                         return best[1]
-                    want = do if indst(t) else so
+                    dstnow = indst(t); want = do if dstnow else so
                     out = (ctypes.c_longlong * 9)(); lib().tzr_break(ctypes.c_void_p(h), ctypes.c_longlong(t), out)
-                    if out[6] != want:
-                        return "zone with footer %r: lookup(%d) (year %d) reports offset %d, the POSIX rule gives %d" % (footer.decode(), t, y, out[6], want)
+                    if out[6] != want or bool(out[7]) != bool(dstnow) or out[8] != (dsti if dstnow else 0):
+                        return "zone with footer %r: lookup(%d) (year %d) reports offset %d, is_dst %d, abbreviation index %d; the POSIX rule gives offset %d, is_dst %d, the %s name" % (
+                            footer.decode(), t, y, out[6], out[7], out[8], want, dstnow, "DST" if dstnow else "standard")
         finally:
             lib().tzr_free(ctypes.c_void_p(h))
     return None
